@@ -706,7 +706,7 @@ func serverBasePlan(batch string, base uint64) *ServerPlan {
 }
 
 // SubRuns enumerates the crash points of one base execution.
-func (serverEngine) SubRuns(batch string, runIdx uint64, extra json.RawMessage) []json.RawMessage {
+func (serverEngine) SubRuns(t *testing.T, batch string, baseTape func() *rt.Tape, runIdx uint64, extra json.RawMessage) []json.RawMessage {
 	if batch != "c07.crash" {
 		return nil
 	}
